@@ -350,7 +350,8 @@ def build_table():
     # --- mutation configurations
     def mc_len_inv(rng):
         n = rng.randint(2, 5)
-        return dict(n=n, d=rng.choice([-1, 1, 1, 2, -(n - 1) if n > 2 else 1, 5]), th=pos(rng), y=1.0, t=None)
+        # theta = 0 is a valid mutation rate (its shortcut must not come before the length check)
+        return dict(n=n, d=rng.choice([-1, 1, 1, 2, -(n - 1) if n > 2 else 1, 5]), th=rng.choice([0, 0.0, pos(rng), pos(rng)]), y=1.0, t=None)
 
     def mc_val(rng):
         return dict(n=rng.randint(2, 5), d=0, th=nonneg(rng), y=pos(rng), t=None)
